@@ -31,6 +31,9 @@ def lookup_intrinsic(pyf):
         return e[1]
     if getattr(pyf, "__self__", None) is np.add and getattr(pyf, "__name__", "") == "accumulate":
         return _accumulate
+    import pathlib
+    if getattr(pyf, "__name__", "") == "cwd" and getattr(pyf, "__self__", None) in (pathlib.Path, pathlib.PosixPath):
+        return path_cwd_intrinsic
     # pint Quantity classes are created per registry: recognise by class hierarchy
     try:
         import pint
@@ -70,7 +73,7 @@ def from_concrete(ex, st, r):
 
 _PURE_MODULE_PREFIXES = ("math", "numpy", "builtins", "os.path", "posixpath", "pathlib", "operator", "re", "json",
                          "fractions", "decimal", "enum", "geophires_x.OptionList", "geophires_x.Units", "pint",
-                         "numpy_financial", "scipy", "dataclasses")
+                         "numpy_financial", "scipy", "dataclasses", "tempfile")
 
 
 def is_pure_library_callable(f):
@@ -437,6 +440,48 @@ def _enumerate(ex, st, args, kwargs, node):
 def _zip(ex, st, args, kwargs, node):
     from .execute import ZipVal
     return ZipVal(list(args))
+
+
+def _glob(st, name, default_tag):
+    key = ("glob", name)
+    if key not in st.heap:
+        st.heap[key] = Opaque(default_tag)
+    return st.heap[key]
+
+
+def _register_process_state():
+    import os
+    import pathlib
+
+    @intrinsic(os.chdir)
+    def _chdir(ex, st, args, kwargs, node):
+        st.heap[("glob", "cwd")] = args[0]
+        st.effects.append(("cwd", "write"))
+        return None
+
+    @intrinsic(os.getcwd)
+    def _getcwd(ex, st, args, kwargs, node):
+        return _glob(st, "cwd", "cwd@entry")
+
+    @intrinsic(hash)
+    def _hash(ex, st, args, kwargs, node):
+        (x,) = args
+        if isinstance(x, Ref):
+            import inspect
+            h = inspect.getattr_static(type(x.obj), "__hash__", None)
+            if isinstance(h, types.FunctionType):
+                return ex.call_value(FuncVal(pyfunc=h, bound_self=x), [], {}, st, node)
+            raise Unsupported("hash of object without repository __hash__")
+        if is_sym(x):
+            raise Unsupported("hash of symbolic value")
+        return hash(x)
+
+
+_register_process_state()
+
+
+def path_cwd_intrinsic(ex, st, args, kwargs, node):
+    return _glob(st, "cwd", "cwd@entry")
 
 
 class SuperProxy:
